@@ -1702,6 +1702,43 @@ class JsonDocSuite(Suite):
         return h.partition("|")[2][:60] + h.split(" ")[0]
 
 
+class JsonDocFSuite(JsonDocSuite):
+    """slot-level tie of the FILTERED deserializeJson (model AJ/Model/JDDF.lean): (filter, text) pairs from the filter suite's generators plus
+    texts with long and repeated keys (the key of every member of a visited object goes through the string builder, kept or not), into an empty
+    or a used document, without and with allocation failures: code, document, bytes consumed, overflowed flag AND the allocator log are compared
+    with the model; same independent checks as the unfiltered suite"""
+    name = "jsondocf"
+
+    def generate(self, rng, tier):
+        cb = cfgbits(self.cfg)
+        n = getattr(self, "n", 1500 if tier == "quick" else 120000)
+        cases = []
+        fails = ["-"] + ["a%d" % k for k in range(1, 13)] + ["f%d" % k for k in range(1, 7)]
+        fixed = [(b'{"a":true}', b'{"a":1,"b":2,"a":[1,2]}'), (b'{"a":true}', b'{"' + b"b" * 100 + b'":1,"a":"' + b"v" * 40 + b'","' + b"c" * 31 + b'":[1,2,{"a":3}]}'),
+                 (b'[{"k":true}]', b'[{"k":1,"x":2},{"x":3},5,{"k":"k","k":"x"}]'), (b'{"a":{"b":true}}', b'{"a":{"b":[1,"s"],"c":"skipped"},"d":{"b":1}}'),
+                 (b'true', b'{"a":[1,"abc",{"k":2}]}'), (b'false', b'{"a":[1,"abc",{"k":2}]}'), (b'null', b'[1,2]'), (b'{"a":true}', b'[1,2,{"a":1}]'), (b'[true]', b'{"a":1}'),
+                 (b'{"a":true}', b'{"b":"' + b"s" * 300 + b'","a":"' + b"s" * 300 + b'"}'), (b'{"a":true}', b'{b:1,a:\'x\',"c":/*c*/[1,{"a":2}]}'), (b'{"a":[true]}', b'{"a":[1,2'),
+                 (b'{"a":true}', b'{"b":[[[[[[[[[[[[1]]]]]]]]]]]],"a":1}'), (b'{"a":true}', b'{"a":1,"b":tru}')]
+        for flt, t in fixed:
+            for pre in (0, 1):
+                for f in fails:
+                    cases.append(Case("jsondocf %d 10 %d %s %s %s" % (cb, pre, f, hx(flt), hx(t)), text=t, fail=f))
+        fs = FilterSuite(cfg=self.cfg)
+        fs.n = 4 * n
+        src = [c for c in fs.generate(rng, tier) if c.meta.get("fmt") == "j"][:n]
+        for c in src:
+            t, flt = c.meta["text"], c.meta["flt"]
+            if rng.random() < 0.2:
+                # lengthen the keys: builder growth for kept and for skipped members
+                t = t.replace(b'"a":', b'"a":', 1).replace(b'"c":', b'"' + b"c" * rng.choice([31, 32, 70]) + b'":')
+            f = rng.choice(fails) if rng.random() < 0.6 else "-"
+            cases.append(Case("jsondocf %d %d %d %s %s %s" % (cb, c.meta["lim"], rng.choice([0, 0, 1]), f, hx(flt), hx(t)), text=t, fail=f))
+        sfx = geo_suffix(self.cfg)
+        for c in cases:
+            c.line += sfx
+        return cases
+
+
 class MpDocSuite(JsonDocSuite):
     """slot-level tie of deserializeMsgPack (model AJ/Model/MDD.lean): well-formed objects in arbitrary legal widths (incl. bin/ext, repeated keys,
     repeated strings: buffer reuse and de-duplication), prefixes, corruptions, hostile headers, into an empty or a used document, without and with
